@@ -64,10 +64,20 @@ def one(ctx: Ctx, cs, pname, over, core=True, max_sets=24):
         modes = (0, 2, 1) if ci % 4 == 0 else (0, 1)
         if ci % 5 == 1:
             modes = modes + (3, 4)
+        if ci % 5 == 2:
+            modes = modes + (5,)
         for sep_mode in modes:
             ref_alternatives = None
             char_cuts = False
-            if sep_mode == 3:
+            if sep_mode == 5:
+                # fragments whose records end the way another platform ends them: a lone CR (classic Mac) or CR LF; the importer reads
+                # all three line ends, so the joined text is the same score
+                le = ['\r', '\r\n'][(ci // 5) % 2]
+                sep = le
+                frags = [le.join(src_lines[a:b]) for a, b in frag_ranges]
+                kwargs = {'separator': le}
+                ctx.mon(f'fragments_with_line_end:{"CR" if le == chr(13) else "CRLF"}')
+            elif sep_mode == 3:
                 # a separator that carries content: a reference record between the fragments.  "The joined text" is the fragments
                 # with the separator between them (kernpy also writes it in front of the first): either reading is accepted
                 sep = ['\n!!!system: break\n', '\n!! next page\n', '\n\n!!!YEM: x\n\n'][ci % 3]
